@@ -52,6 +52,10 @@ func c13Cases() []c13Case {
 		{name: "requires-missing", kind: "requires", guard: func(g *T) { g.Requires = []string{"X"} }, blocked: true, code: 206},
 		{name: "enum-ok", kind: "enum", guard: func(g *T) { g.RequiresEnum = [][]string{{"X", "a", "b"}} }, gvars: [][2]string{{"X", "b"}}},
 		{name: "enum-violated", kind: "enum", guard: func(g *T) { g.RequiresEnum = [][]string{{"X", "a", "b"}} }, gvars: [][2]string{{"X", "c"}}, blocked: true, code: 207},
+		// values that are not YAML strings (vars: {X: 3}, {X: false}) are compared by their text
+		{name: "enum-int-violated", kind: "enum", guard: func(g *T) { g.RequiresEnum = [][]string{{"X", "1", "2"}} }, gvars: [][2]string{{"X", "RAW:3"}}, blocked: true, code: 207},
+		{name: "enum-int-ok", kind: "enum", guard: func(g *T) { g.RequiresEnum = [][]string{{"X", "1", "2"}} }, gvars: [][2]string{{"X", "RAW:2"}}},
+		{name: "enum-bool-violated", kind: "enum", guard: func(g *T) { g.RequiresEnum = [][]string{{"X", "yes", "no"}} }, gvars: [][2]string{{"X", "RAW:false"}}, blocked: true, code: 207},
 		{name: "enum-missing", kind: "enum", guard: func(g *T) { g.RequiresEnum = [][]string{{"X", "a", "b"}} }, blocked: true, code: 206},
 		{name: "precondition-pass", kind: "precondition", guard: func(g *T) { g.Preconditions = []string{"true"} }},
 		{name: "precondition-fail", kind: "precondition", guard: func(g *T) { g.Preconditions = []string{"true", "false"} }, blocked: true},
@@ -198,7 +202,9 @@ func c13Units(tier string) []*Unit {
 			pg, roots := c13Prog(pos, c)
 			sc := scen(fmt.Sprintf("%s/%s", c.name, pos), pg, c.opts, roots...)
 			if pos == "direct" {
-				sc.Calls[0].Vars = append(sc.Calls[0].Vars, c.gvars...)
+				for _, gv := range c.gvars { // (on the command line every value is a string)
+					sc.Calls[0].Vars = append(sc.Calls[0].Vars, [2]string{gv[0], strings.TrimPrefix(gv[1], "RAW:")})
+				}
 			}
 			bound := 1
 			if tier == "thorough" {
